@@ -170,12 +170,17 @@ def line_end_positions(doc) -> list[int]:
 
 
 # ----------------------------------------------------------------------------- binary side
-def layout_ibd(spectra, mzdt, itdt, *, shared=False, rng=None, intensity_first=False):
+def layout_ibd(spectra, mzdt, itdt, *, shared=False, rng=None, intensity_first=False, links=None):
     """spectra: [{"mz": [float], "it": [float]}].  Returns (bytes, [{"mz": (off, nbytes, n), "it": (...)}]).
     `shared`: one m/z array at a single offset referenced by every spectrum (continuous mode; the
-    caller guarantees equal axes).  Random padding between the arrays when `rng` is given."""
+    caller guarantees equal axes).  Random padding between the arrays when `rng` is given.
+    `links`: {i: {"mz": b} | {"it": b} | both}: the named array of spectrum i is NOT stored; spectrum i
+    points at the offset of the same array of spectrum b (stored once) with its OWN length - a leading
+    part of it (never more than is stored: the length is clamped).  b may come before or after i in
+    the file; b's own array must be stored (links to a linked array are followed)."""
     buf = bytearray(b"\x00" * 16)  # UUID
     metas = []
+    links = {int(k): v for k, v in (links or {}).items()}
 
     def put(vals, dt):
         if rng is not None and rng.random() < 0.3:
@@ -185,18 +190,38 @@ def layout_ibd(spectra, mzdt, itdt, *, shared=False, rng=None, intensity_first=F
         buf.extend(arr.tobytes())
         return (off, arr.nbytes, len(arr))
 
+    def linked(i, which):
+        b = links.get(i, {}).get(which)
+        return None if b is None or not (0 <= b < len(spectra)) or b == i else b
+
     shared_mz = None
-    for s in spectra:
+    for i, s in enumerate(spectra):
+        lm, li = linked(i, "mz"), linked(i, "it")
         if shared:
             if shared_mz is None:
                 shared_mz = put(s["mz"], mzdt)
-            metas.append({"mz": shared_mz, "it": put(s["it"], itdt)})
+            metas.append({"mz": shared_mz, "it": None if li is not None else put(s["it"], itdt)})
         elif intensity_first:
-            i = put(s["it"], itdt)
-            metas.append({"mz": put(s["mz"], mzdt), "it": i})
+            it = None if li is not None else put(s["it"], itdt)
+            metas.append({"mz": None if lm is not None else put(s["mz"], mzdt), "it": it})
         else:
-            m = put(s["mz"], mzdt)
-            metas.append({"mz": m, "it": put(s["it"], itdt)})
+            m = None if lm is not None else put(s["mz"], mzdt)
+            metas.append({"mz": m, "it": None if li is not None else put(s["it"], itdt)})
+    for which, dt in (("mz", mzdt), ("it", itdt)):
+        width = np.dtype(NP_DTYPE[dt]).itemsize
+        for i, s in enumerate(spectra):
+            if metas[i][which] is not None:
+                continue
+            b, seen = linked(i, which), {i}
+            while b is not None and metas[b][which] is None and b not in seen:
+                seen.add(b)
+                b = linked(b, which)
+            if b is None or metas[b][which] is None:  # no stored array to point at: store it after all
+                metas[i][which] = put(s[which], dt)
+                continue
+            off, _, nb = metas[b][which]
+            n = min(len(s[which]), nb)
+            metas[i][which] = (off, n * width, n)
     return bytes(buf), metas
 
 
